@@ -28,3 +28,7 @@ pub assume_specification<'a, T, F: FnMut(&'a T) -> Ordering>[ <[T]>::binary_sear
         r matches Ok(i) ==> i < s@.len() && call_ensures(f, (&s@[i as int],), Ordering::Equal),
         r is Err ==> forall|i: int| 0 <= i < s@.len() ==> returns_non_equal(f, &#[trigger] s@[i]),
 ;
+
+pub assume_specification<T, U, F: FnOnce(T) -> U>[ Option::<T>::map_or ](o: Option<T>, default: U, f: F) -> (r: U)
+    requires o matches Some(x) ==> call_requires(f, (x,)),
+    ensures (o matches Some(x) ==> call_ensures(f, (x,), r)), (o is None ==> r == default);
